@@ -56,7 +56,7 @@ def plan(tier):
 def generate(rng, tier):
     lines = []
     for i in range(rng.randrange(1, 6)):
-        k = rng.choice(["str", "sum", "var", "macro", "loop", "nonl", "name", "argc", "sib", "err", "reader", "uni", "hook", "sibrt"])
+        k = rng.choice(["str", "sum", "var", "macro", "loop", "nonl", "name", "argc", "sib", "err", "reader", "uni", "hook", "sibrt", "sibrd"])
         lines.append({"k": k, "a": rng.randrange(100), "b": rng.randrange(100)})
     end = rng.choice(["none", "none", "exit", "exit0", "exitmsg", "raise", "reader", "compile", "none", "raise_os", "raise_os",
                       "exitnone", "raise_os"])
@@ -69,12 +69,16 @@ def generate(rng, tier):
     return {"lines": lines, "end": end, "code": rng.choice([2, 3, 7, 42, 255]), "args": args, "pre": pre, "order": order,
             "file_as": rng.choice(["plain", "dot", "abs", "dashdash"]),
             "spell": rng.choice(["plain", "plain", "cluster", "attached", "attached_eq"]),
-            "os_kind": rng.randrange(14), "run_pyc": rng.random() < 0.3, "alt_ext": rng.choice([None, None, None, "", "", ".txt", ".hyx"]), "m_hyphen": rng.random() < 0.3}
+            "os_kind": rng.randrange(14), "run_pyc": rng.random() < 0.3, "entry": rng.choice(["script", "module"]), "doc": rng.random() < 0.15, "alt_ext": rng.choice([None, None, None, "", "", ".txt", ".hyx"]), "m_hyphen": rng.random() < 0.3}
 
 
 def render(desc):
     src = ["(import sys)"]
     out = []
+    if desc.get("doc"):
+        # the program starts with a docstring and reads it back
+        src = ['"the docstring of this program"', "(import sys)", '(print "DOC" __doc__)']
+        out.append("DOC the docstring of this program")
     errs = []
     hooked = False
     src.append('(print "ARGV0" (get sys.argv 0))')
@@ -114,6 +118,10 @@ def render(desc):
             # ... and the required macro must also be there at RUN time (hy.eval looks it up in the running module)
             src.append(f"(require SIBLING [sm :as rsm{i}])\n(print (hy.eval '(rsm{i} {a})))")
             out.append(str([a, "sib"]))
+        elif k == "sibrd":
+            # one require entry for macros AND reader macros of the sibling; both used, the macro also at run time
+            src.append(f"(require SIBLING :macros [sm :as dsm{i}] :readers [sr])\n(print (hy.eval '(dsm{i} {a})) #sr (dsm{i} {b}))")
+            out.append(f"{[a, 'sib']} rd {[b, 'sib']}")
         elif k == "err":
             src.append(f'(print "e{a}" :file sys.stderr)')
             errs.append(f"e{a}")
@@ -193,7 +201,7 @@ def execute(desc):
     with open(path, "w", encoding="utf-8") as f:
         f.write(text)
     with open(os.path.join(root, sib + ".hy"), "w") as f:
-        f.write('(defn sf [x] (+ x 1))\n(defmacro sm [x] `[~x "sib"])\n')
+        f.write('(defn sf [x] (+ x 1))\n(defmacro sm [x] `[~x "sib"])\n(defreader sr \'"rd")\n')
     pyc = importlib.util.cache_from_source(path)
     pyc_copy = os.path.join(root, modname + "_bc.pyc")
     alt_path = os.path.join(root, modname + "_alt" + (desc.get("alt_ext") or ""))
@@ -246,7 +254,7 @@ def execute(desc):
                 else:
                     argv = ["hy"] + pre + ["-m", mname] + args
                 a0 = path
-            status, out, err = cli.run_hy(argv, stdin, cwd=root, timeout=90)
+            status, out, err = cli.run_hy(argv, stdin, cwd=root, timeout=90, entry=desc.get("entry", "script"))
             if status is None:
                 raise RuntimeError("harness: hy invocation timed out: %r" % (argv[:3],))
             got_lines = out.splitlines()
@@ -358,6 +366,10 @@ def shrink(desc):
         yield dict(desc, spell="plain")
     if desc.get("run_pyc"):
         yield dict(desc, run_pyc=False)
+    if desc.get("doc"):
+        yield dict(desc, doc=False)
+    if desc.get("entry") == "module":
+        yield dict(desc, entry="script")
     if desc.get("alt_ext") is not None:
         yield dict(desc, alt_ext=None)
     for i in range(len(desc["order"])):
